@@ -379,6 +379,35 @@ class FSecGuard(FSec):
         return [("%s-%s" % k, _pick(rng, by[k], 24 * scale if k[1] == "null" else 40 * scale, lambda x: (x["alg"], x["bearer"], x["dir"]))) for k in sorted(by)]
 
 
+# ------------------------------------------------------------------ C14 helpers on UE-supplied contents
+class F14(Family):
+    """harness/cmd/conc/f14 (generated from cmd/helpers14): the helpers that interpret UE-supplied contents, called by all
+    goroutines at once on TLC-generated boundary strings - mostly MALFORMED contents, i.e. the refusal / warning paths the
+    other families rarely take; judged by Trace_C14 (no panic; result classes are information there)."""
+    name, pid, trace, shards, driver = "f14", "C14", "Trace_C14", 4, "helpers14"
+
+    def pool(self, c, sd):
+        res = c.tlc(sd, "MC_C14gen", "MC_C14gen", timeout=900, workers=2)
+        if not res.clean: raise Infra("case generator MC_C14gen failed:\n" + res.out[-2000:])
+        cases = [json.loads(json.loads(ln)) for ln in res.printed if ln.startswith('"{')]
+        if len(cases) < 20000: raise Infra("MC_C14gen printed %d cases" % len(cases))
+        # LadnToModels has a recorded class of inputs on which earlier trees did not return; the family driver runs it under
+        # its own watchdog protocol - it stays in the sequential check
+        return [x for x in cases if x["h"] != "LadnToModels" and len(x["in"]) <= 300], res
+
+    def plan(self, pool, rng, scale, wide=False):
+        by = {}
+        for x in pool: by.setdefault(x["h"], []).append(x)
+        if len(by) < 30: raise Infra("MC_C14gen printed cases for %d helpers only" % len(by))
+        return [(h, _pick(rng, by[h], 10 * scale, lambda x: len(x["in"]))) for h in sorted(by)]
+
+    dedupe = True
+
+    def verdict(self, t):
+        if len(t) < 4 or t[2] == "NOTE": return None
+        return (t[2], t[3])
+
+
 # ------------------------------------------------------------------ C09 IE field accessors
 class F09(Family):
     name, pid, trace, shards, driver = "f09", "C09", "Trace_C09", 4, "ietypes"
@@ -511,7 +540,7 @@ class FMsg(Family):
 
 
 def families(with_sec=True, with_ie=True):
-    fs = [F17(), F12(), F13(), F15(), F15S(), F16(), F18()]
+    fs = [F17(), F12(), F13(), F14(), F15(), F15S(), F16(), F18()]
     if with_sec:
         fs += [FSec("f06", "C06", "Trace_C06", "MC_C06_gen"), FSec("f07", "C07", "Trace_C07", "MC_C07_gen"), FSecGuard()]
     if with_ie:
